@@ -18,6 +18,7 @@ import (
 )
 
 type Engine struct {
+	litImports map[string]bool // packages named by the literals of the replay being built
 	repo   string
 	verif  string
 	fset   *token.FileSet
@@ -523,6 +524,9 @@ func (g *FuncGen) initFrame() {
 	g.tuples = map[ssa.Value][]string{}
 	g.visited = map[*ssa.BasicBlock]string{}
 	g.nextKey = map[*ssa.BasicBlock]string{}
+	g.strPos = map[*ssa.BasicBlock]string{}
+	g.strAx = map[string]bool{}
+	g.strNext = map[*ssa.BasicBlock]string{}
 	g.localAllocs = map[*ssa.Alloc]bool{}
 }
 
@@ -641,9 +645,34 @@ func (g *FuncGen) queryPart(o *Obligation, part int, models bool, abstracted boo
 		for _, n := range names {
 			ts = append(ts, g.paramTerms[n].Term)
 		}
+		ts = append(ts, g.strModelTerms(names, body.String())...)
 		if len(ts) > 0 {
 			b.WriteString("(get-value (" + strings.Join(ts, " ") + "))\n")
 		}
 	}
 	return b.String()
+}
+
+// strModelBytes: how many leading bytes of a byte-model string are read back
+// from a solver model (longer strings are not replayed).
+const strModelBytes = 24
+
+// strModelTerms: for every string-typed parameter in the byte-level string
+// model, the terms that read its length and leading bytes from a model.
+func (g *FuncGen) strModelTerms(names []string, body string) []string {
+	if g.w.useStrings || !strings.Contains(body, "(|str.byte| ") {
+		return nil
+	}
+	var ts []string
+	for _, n := range names {
+		v := g.paramTerms[n]
+		if v.Type == nil || !isStringType(v.Type) {
+			continue
+		}
+		ts = append(ts, fmt.Sprintf("(strlen %s)", v.Term))
+		for k := 0; k < strModelBytes; k++ {
+			ts = append(ts, fmt.Sprintf("(|str.byte| %s %d)", v.Term, k))
+		}
+	}
+	return ts
 }
